@@ -4,7 +4,8 @@
 Committed state: the model is the code WITH fix F16 (fixes/F16-construct-pipeline-static-guard.diff) applied:
 ConstructPipeline only fires for constant lb = 0, step = 1 and constant ub >= stages - 1.
 
-A case is an abstract loop: bounds, a tile table (index ops = subviews `A[i + off]`), and a token list
+A case is an abstract loop: bounds, a tile table (index ops = subviews `A[i + off]`, or loop-invariant `A[off]`; a tile
+may also serve as stage-to-stage buffer: "view" cases), and a token list
 (`idx` / `op` with tagged operands / `sync`). `render` turns it into MLIR; the three real passes run on it;
 `extract` reads the slot structure (which op on which index expression with which operands in the prologue,
 the steady-state loop and the epilogue, barriers, parity selects) off the unrolled IR. The Lean model produces
@@ -44,7 +45,7 @@ def render(case):
                     bufs.add(o[1])
                 if o[0] == "x":
                     exts.add(o[1])
-    for a in sorted({a for a, _ in tiles}):
+    for a in sorted({t[0] for t in tiles}):
         L.append(f"%A{a} = memref.alloc() : {BIG}")
     for b in sorted(bufs):
         L.append(f"%b{b} = memref.alloc() : {T}")
@@ -62,8 +63,12 @@ def render(case):
     for t in case["body"]:
         if t[0] == "idx":
             if j < len(tiles):
-                a, off = tiles[j]
-                if off == 0:
+                a, off = tiles[j][0], tiles[j][1]
+                if len(tiles[j]) > 2 and tiles[j][2]:
+                    # a loop-invariant view computed inside the loop body
+                    B.append(f"  %c{j} = arith.constant {off} : index")
+                    B.append(f"  %t{j} = memref.subview %A{a}[%c{j}] [1] [1] : {BIG} to {T1}")
+                elif off == 0:
                     B.append(f"  %t{j} = memref.subview %A{a}[%i] [1] [1] : {BIG} to {T1}")
                 else:
                     B.append(f"  %c{j} = arith.constant {off} : index")
@@ -337,7 +342,7 @@ def _mexpr(e, off=0):
 
 def _mopnd(v):
     if v[0] == "tile":
-        return ["tile", v[1], _mexpr(v[3], v[2])]
+        return ["tile", v[1], [None, v[2]] if v[3] else _mexpr(v[4], v[2])]
     if v[0] == "dup":
         return ["dup", v[1], _mexpr(v[2])]
     return [v[0], v[1]]
@@ -354,8 +359,8 @@ def original_structure(case):
 
     def o(v):
         if v[0] == "t":
-            a, off = tiles[v[1]]
-            return ["tile", a, ["iv", off]]
+            a, off = tiles[v[1]][0], tiles[v[1]][1]
+            return ["tile", a, [None, off] if len(tiles[v[1]]) > 2 and tiles[v[1]][2] else ["iv", off]]
         return [{"b": "alloc", "x": "ext"}[v[0]], v[1]]
     for t in case["body"]:
         if t[0] == "op":
@@ -441,7 +446,9 @@ def has_trailing(case):
 
 
 def tiles_misaligned(case):
-    return any(a == a2 and o != o2 for (a, o), (a2, o2) in itertools.combinations([tuple(t) for t in case["tiles"]], 2))
+    """clause TilesAligned violated: two views of one array that are not the same loop-variant element"""
+    ts = [(t[0], t[1], bool(t[2]) if len(t) > 2 else False) for t in case["tiles"]]
+    return any(a == a2 and (o != o2 or i or i2) for (a, o, i), (a2, o2, i2) in itertools.combinations(ts, 2))
 
 
 # ------------------------------------------------------------------------------------------------ generator
@@ -497,6 +504,26 @@ def chain_case(rng, S, N, lb=0, step=1, dyn=(), alias=False, noise=True):
         return [v, name not in dyn]
     return {"kind": "chain", "lb": bnd("lb", lb), "ub": bnd("ub", N), "step": bnd("step", step), "nested": False,
             "tiles": tiles, "body": body}
+
+
+def view_case(rng, S, N):
+    """one stage-to-stage buffer is not an allocation but a view computed by an index op inside the loop body
+    (loop-invariant `A[off]` or loop-variant `A[i + off]`, on an array of its own). PipelineDuplicateBuffers cannot double
+    buffer a view: refusing the loop (NotImplementedError) is fine, pipelining it on the single view is not."""
+    c = chain_case(rng, S, N, noise=rng.random() < 0.5)
+    inter = sorted({v[1] for t in c["body"] if t[0] == "op" for v in t[4] if v[0] == "b"}
+                   & {v[1] for t in c["body"] if t[0] == "op" for v in t[3] if v[0] == "b"})
+    if not inter:
+        return c
+    b = rng.choice(inter)
+    j = len(c["tiles"])
+    c["tiles"] = c["tiles"] + [[20 + j, rng.choice([0, 0, 1, 5]), rng.random() < 0.7]]
+    body = [["idx"]]
+    for t in c["body"]:
+        if t[0] == "op":
+            t = [t[0], t[1], t[2], [["t", j] if v == ["b", b] else v for v in t[3]], [["t", j] if v == ["b", b] else v for v in t[4]]]
+        body.append(t)
+    return dict(c, body=body, kind="view")
 
 
 def mutate_shape(rng, case):
@@ -583,7 +610,7 @@ class C15(Prop):
     assumptions = [
         "stage ops read exactly their inputs and overwrite exactly their outputs (copy: destination := source; "
         "kernel: outputs := f(inputs)); distinct allocations / arrays / external buffers do not alias",
-        "index ops are pure functions of the loop index (here: subviews A[i + off])",
+        "index ops are pure functions of the loop index (here: subviews A[i + off] and loop-invariant subviews A[off])",
         "the input loop itself is race-free between barriers (otherwise 'the sequential loop' has no single meaning)",
     ]
     rule = ("loops with 1..5 stages of copies/kernels, trip counts 0..8, lb/step/ub constant or dynamic, 2..4 tiles, shared read-only / "
@@ -600,8 +627,10 @@ class C15(Prop):
             S = r.choice([2, 2, 3, 3, 3, 4, 4, 1, 5])
             N = r.randrange(0, 9)
             u = r.random()
-            if u < 0.62:
+            if u < 0.55:
                 yield chain_case(r, S, N)
+            elif u < 0.63:
+                yield view_case(r, max(S, 2), max(N, 2) if r.random() < 0.8 else N)
             elif u < 0.72:
                 lb = r.choice([0, 1, 2, 4])
                 step = r.choice([1, 1, 2, 3])
@@ -665,8 +694,8 @@ class C15(Prop):
 
         def o(v):
             if v[0] == "t":
-                a_, off = tiles[v[1]]
-                return ["tile", a_, ["iv", off]]
+                a_, off = tiles[v[1]][0], tiles[v[1]][1]
+                return ["tile", a_, [None, off] if len(tiles[v[1]]) > 2 and tiles[v[1]][2] else ["iv", off]]
             return [{"b": "alloc", "x": "ext"}[v[0]], v[1]]
         for t in p["trailing"]:
             if t == "sync":
